@@ -36,6 +36,21 @@ fn problem(id: &str, args: &[f64]) -> Prob {
             let r = args[0];
             Prob { name: id.into(), n: 1, f: Arc::new(move |_t, y, d| d[0] = r * y[0] * (1.0 - y[0])), jac: Some(Arc::new(move |_t, y| vec![r * (1.0 - 2.0 * y[0])])), flow: None, y0: vec![0.25], linear_homogeneous: false }
         }
+        // a Jacobian entry that is exactly zero for t >= 1 and nonzero before: the stored pattern of a
+        // sparse matrix built from it shrinks during the run
+        "switch" => Prob {
+            name: id.into(),
+            n: 2,
+            f: Arc::new(|t, y, d| {
+                let s = if t < 1.0 { 1.0 } else { 0.0 };
+                d[0] = s * y[1] - 0.25 * y[0];
+                d[1] = -y[0] - 0.5 * y[1];
+            }),
+            jac: Some(Arc::new(|t, _y| vec![-0.25, if t < 1.0 { 1.0 } else { 0.0 }, -1.0, -0.5])),
+            flow: None,
+            y0: vec![1.0, 0.5],
+            linear_homogeneous: true,
+        },
         "lin3" => {
             const A: [[f64; 3]; 3] = [[-1.0, 0.5, 0.0], [0.25, -2.0, 0.5], [0.0, 0.75, -3.0]];
             Prob {
@@ -118,11 +133,11 @@ fn ev_json(e: &EventSpec) -> Value {
 
 fn cases(thorough: bool) -> Vec<Case> {
     let mut v = vec![];
-    let probs: Vec<(&str, Vec<f64>, f64)> = vec![("decay", vec![], 3.0), ("osc", vec![], 3.0), ("logi", vec![1.5], 3.0), ("lin3", vec![], 2.0), ("vdp", vec![5.0], 3.0)];
+    let probs: Vec<(&str, Vec<f64>, f64)> = vec![("decay", vec![], 3.0), ("osc", vec![], 3.0), ("logi", vec![1.5], 3.0), ("lin3", vec![], 2.0), ("vdp", vec![5.0], 3.0), ("switch", vec![], 3.0)];
     for m in M6 {
         for (pid, args, span) in &probs {
             let p = problem(pid, args);
-            let jacs: Vec<&'static str> = if is_implicit(m) { if *pid == "decay" || *pid == "osc" || *pid == "lin3" { vec!["none", "callable", "constant"] } else { vec!["none", "callable"] } } else { vec!["none"] };
+            let jacs: Vec<&'static str> = if is_implicit(m) { if *pid == "decay" || *pid == "osc" || *pid == "lin3" { vec!["none", "callable", "constant"] } else if *pid == "switch" { vec!["callable"] } else { vec!["none", "callable"] } } else { vec!["none"] };
             for jac in jacs {
                 for opt in 0..11 {
                     if jac != "none" && ![0, 1, 3].contains(&opt) {
